@@ -18,7 +18,7 @@ VARIABLES t, n
 Q == 39
 IntDom  == {NULL, IV(-2), IV(0), IV(1), IV(3)}
 StrDom  == {NULL, SV(<<>>), SV(<<97>>), SV(<<97, 98>>), SV(<<98, 97>>), SV(<<97, 37, 98>>), SV(<<97, 95, 98>>),
-            SV(<<37>>), SV(<<95>>), SV(<<111, Q, 114>>), SV(<<92>>)}
+            SV(<<37>>), SV(<<95>>), SV(<<111, Q, 114>>), SV(<<92>>), SV(<<97, 32, 98>>)}
 BoolDom == {NULL, TRUEV, FALSEV}
 TimeDom == {NULL, TV(2019, 12, 31, 23, 59, 59), TV(2020, 2, 29, 0, 0, 0), TV(2021, 1, 1, 10, 5, 0)}
 ColDom == [n |-> IntDom, m |-> IntDom, s |-> StrDom, u |-> StrDom, b |-> BoolDom, d |-> TimeDom]
@@ -52,7 +52,7 @@ ExpandStrings(h) ==
   CASE h = "B" -> { <<0, C2(f, HS, p)>> : f \in {"contains", "startswith", "endswith"},
                                           p \in {SL(<<97>>), SL(<<37>>), SL(<<95>>), SL(<<Q>>), SL(<<92>>), SL(<<>>), SL(<<97, 37>>)} }
                   \cup { <<0, C2(f, HS, uC)>> : f \in {"contains", "startswith", "endswith"} }
-                  \cup { <<0, Cmp(o, HS, p)>> : o \in {"eq", "lt", "ge"}, p \in {SL(<<97, 98>>), SL(<<65, 66>>), SL(<<97, 37, 98>>), uC} }
+                  \cup { <<0, Cmp(o, HS, p)>> : o \in {"eq", "lt", "ge"}, p \in {SL(<<97, 98>>), SL(<<65, 66>>), SL(<<97, 37, 98>>), SL(<<97, 32, 98>>), SL(<<97, 32, 32, 98>>), uC} }
                   \cup { <<0, Cmp(o, C1("length", HS), IntL(k))>> : o \in {"eq", "gt"}, k \in {0, 2} }
                   \cup { <<0, Cmp(o, C2("indexof", HS, p), IntL(k))>> : o \in {"eq", "lt"}, k \in {0, 1}, p \in {SL(<<98>>), SL(<<37>>), uC} }
                   \cup { <<0, Cmp("in", HS, Lst(<<SL(<<97>>), SL(<<111, Q, 114>>), SL(<<37>>)>>))>> }
